@@ -215,9 +215,10 @@ def statsReport (mods : Nat → Mod) (done : List Nat) (shown : List Nat) : List
   shown.map fun i => flags (lookup (statsAfter mods done) (mods i).leaf)
 
 /-! ### line protocol
-  `det model lim:<E,..|-> mods:<hexleaf=res,..|-> done:<i,i,..|-> thr:<i.i.i|->/<tid,tid,..|-> fixed:<hex,..|-> valid:<hex,..|->`
+  `det model lim:<E,..|-> mods:<hexleaf=res,..|-> done:<i,i,..|-> thr:<i.i.i|->/<tid,tid,..|-> fixed:<hex,..|-> valid:<hex,..|-> jvalid:<hex,..|->`
       E = `<hexname>/<rest>`; lists in the order the real containers were iterated / the real
-      supplier calls completed.
+      supplier calls completed; `valid` = validity set of a recovered frame (text report),
+      `jvalid` = the set `json_registers` tests for the crashing thread's context frame.
       -> `lim:<E,..> stats:<mlc,..> thr:<tid,..> text:<hex,..> json:<hex,..>`
   `det cfi init:<r=v+|r=v-,..|-> rules:<hexlabel=v|hexlabel=-,..|->`   (rules in any order)
       -> `regs:<r=v+|r=v-,..>` for the registers 0…32 that are valid or were touched
@@ -253,14 +254,15 @@ def parseMod (s : String) : Option Mod :=
 
 def bit (b : Bool) : String := if b then "1" else "0"
 
-def handleModel (lim mods done thr fixed valid : String) : String :=
+def handleModel (lim mods done thr fixed valid jvalid : String) : String :=
   match allSome ((listOf lim ",").map parseEntry),
         allSome ((listOf mods ",").map parseMod),
         allSome ((listOf done ",").map optNat),
         thr.splitOn "/",
         allSome ((listOf fixed ",").map unhexName),
-        allSome ((listOf valid ",").map unhexName) with
-  | some lim, some mods, some done, [order, tids], some fixed, some valid =>
+        allSome ((listOf valid ",").map unhexName),
+        allSome ((listOf jvalid ",").map unhexName) with
+  | some lim, some mods, some done, [order, tids], some fixed, some valid, some jvalid =>
     match allSome ((listOf order ".").map optNat), allSome ((listOf tids ",").map optNat) with
     | some order, some tids =>
       if done.any (· ≥ mods.length) || order.any (· ≥ tids.length) then "bad-op" else
@@ -269,9 +271,9 @@ def handleModel (lim mods done thr fixed valid : String) : String :=
       -- every walk starts from a placeholder (the context frame only) and writes its own slot
       let joined := joinByIndex (fun i => some (tids.getD i 0)) (tids.map fun _ => none) order
       let thrOut := joined.map fun o => match o with | some t => toString t | none => "?"
-      s!"lim:{joinWith "," (renderLimits renderEntry lim)} stats:{joinWith "," (stats.map fun (m, l, c) => bit m ++ bit l ++ bit c)} thr:{joinWith "," thrOut} text:{joinWith "," ((textRegs fixed valid).map hexName)} json:{joinWith "," ((jsonRegs fixed valid).map hexName)}"
+      s!"lim:{joinWith "," (renderLimits renderEntry lim)} stats:{joinWith "," (stats.map fun (m, l, c) => bit m ++ bit l ++ bit c)} thr:{joinWith "," thrOut} text:{joinWith "," ((textRegs fixed valid).map hexName)} json:{joinWith "," ((jsonRegs fixed jvalid).map hexName)}"
     | _, _ => "bad-op"
-  | _, _, _, _, _, _ => "bad-op"
+  | _, _, _, _, _, _, _ => "bad-op"
 
 def parseCell (s : String) : Option (Nat × Cell) :=
   match s.splitOn "=" with
@@ -306,12 +308,12 @@ def field (pfx : String) (s : String) : Option String :=
 /-- line-protocol entry point of this model (engine(s): det) -/
 def handle (_engine : String) (args : List String) : String :=
   match args with
-  | ["model", lim, mods, done, thr, fixed, valid] =>
+  | ["model", lim, mods, done, thr, fixed, valid, jvalid] =>
     match field "lim:" lim, field "mods:" mods, field "done:" done, field "thr:" thr,
-          field "fixed:" fixed, field "valid:" valid with
-    | some lim, some mods, some done, some thr, some fixed, some valid =>
-      handleModel lim mods done thr fixed valid
-    | _, _, _, _, _, _ => "bad-op"
+          field "fixed:" fixed, field "valid:" valid, field "jvalid:" jvalid with
+    | some lim, some mods, some done, some thr, some fixed, some valid, some jvalid =>
+      handleModel lim mods done thr fixed valid jvalid
+    | _, _, _, _, _, _, _ => "bad-op"
   | ["cfi", init, rules] =>
     match field "init:" init, field "rules:" rules with
     | some init, some rules => handleCfi init rules
